@@ -76,7 +76,8 @@ def energy_second_moment_mps_impl(
     """
     h_square = hamiltonian @ hamiltonian
     h_2 = h_square.expect(state).cpu()
-    assert torch.allclose(h_2.imag, torch.zeros_like(h_2.imag), atol=1e-4)
+    # rounding and MPO truncation errors scale with the size of the result
+    assert h_2.imag.abs() <= 1e-4 * max(1.0, h_2.abs().item())
     return h_2.real
 
 
@@ -92,5 +93,6 @@ def energy_mps_impl(
     for the EMU-MPS.
     """
     h = hamiltonian.expect(state)
-    assert torch.allclose(h.imag, torch.zeros_like(h.imag), atol=1e-4)
+    # rounding errors scale with the size of the result
+    assert h.imag.abs() <= 1e-4 * max(1.0, h.abs().item())
     return h.real
